@@ -165,6 +165,11 @@ class ECDSAPublicKey(_ECKey):
                                                                public_value)
         pub = pub_key.public_numbers()
 
+        # The value given may be a compressed point. SSH key blobs and
+        # fingerprints use the uncompressed form.
+        public_value = pub_key.public_bytes(Encoding.X962,
+                                            PublicFormat.UncompressedPoint)
+
         return cls(pub_key, curve_id, pub, public_value)
 
     def verify(self, data: bytes, sig: bytes, hash_name: str = '') -> bool:
